@@ -27,6 +27,7 @@ CONSTANTS
   SnapFails = FALSE
   Rst = "none"
   Rep = "rep"
+  Late <- LateNone
   ReplayAtEnd = TRUE
 INVARIANTS FillAccounting ReadBack IndexCoherent SortCoherent KeyCoherent NoCollision OccupiedIsLive NoStaleValues StreamIds
 PROPERTIES RollbackNoTrace
